@@ -739,3 +739,36 @@ pub fn rec_optseq(ch: &mut Chunker, w0: usize, ops: &[Value]) {
     let from_usize = options_fields(ch, &Options::from(w0));
     ch.push(json!({"ev": "optseq", "w0": alpha(w0).unwrap_or(-1), "full": cfg!(feature = "full"), "ops": ops, "res": res, "by_ref": by_ref, "from_usize": from_usize}));
 }
+
+/// Record one unfill() call as a group of step events (u.begin, u.l1 per line of loop 1, u.l1end, u.l2 per
+/// non-empty line of loop 2, u.end) for validation against the step machine of spec/MC_Refill.tla.
+pub fn rec_unfill_steps(ch: &mut Chunker, s: &str) {
+    textwrap::verif::install();
+    let r = guarded(&|| format!("unfill({:?})", s), || {
+        let (t, o) = textwrap::unfill(s);
+        (t, o.initial_indent.to_string(), o.subsequent_indent.to_string(), o.width, o.line_ending == LineEnding::CRLF)
+    });
+    let evs = textwrap::verif::take();
+    let sj = ch.cps(s);
+    ch.push_raw(json!({"ev": "w.begin", "kind": "unfill", "s": sj}));
+    let mut in_l1 = true;
+    for e in &evs {
+        match e.site {
+            "unfill.loop1" => ch.push_raw(json!({"ev": "u.l1", "idx": e.vals[0], "width": e.vals[1], "ii": e.vals[2], "si": e.vals[3]})),
+            "unfill.options" => {
+                ch.push_raw(json!({"ev": "u.l1end", "width": e.vals[0], "ii": e.vals[1], "si": e.vals[2]}));
+                in_l1 = false;
+            }
+            "unfill.loop2" => ch.push_raw(json!({"ev": "u.l2", "idx": e.vals[0], "len": e.vals[1], "ending": e.vals[2]})),
+            _ => {}
+        }
+    }
+    let _ = in_l1;
+    match r {
+        Ok((t, ii, si, w, crlf)) => {
+            let ev = json!({"ev": "u.end", "text": ch.cps(&t), "ii": ch.cps(&ii), "si": ch.cps(&si), "width": alpha(w).unwrap_or(-1), "crlf": crlf, "status": "ok"});
+            ch.push_raw(ev);
+        }
+        Err(_) => ch.push_raw(json!({"ev": "u.end", "text": [], "ii": [], "si": [], "width": 0, "crlf": false, "status": "panic"})),
+    }
+}
